@@ -789,6 +789,28 @@ class _Timeout(BaseException):
     pass
 
 
+class _Deep(Exception):
+    pass
+
+
+def nesting_depth(o, limit: int) -> int | None:
+    """depth of nested lists / dicts / tuples, computed without recursion; None when it exceeds `limit`"""
+    best, stack = 0, [(o, 1)]
+    while stack:
+        x, d = stack.pop()
+        if isinstance(x, dict):
+            kids = list(x.values())
+        elif isinstance(x, (list, tuple)):
+            kids = list(x)
+        else:
+            continue
+        if d > limit:
+            return None
+        best = max(best, d)
+        stack.extend((k, d + 1) for k in kids)
+    return best
+
+
 def run_ser(case: dict) -> dict:
     cc = fresh_converter()
     import pyopenapi_gen.core.utils as U
@@ -847,6 +869,12 @@ def run_ser(case: dict) -> dict:
             r = U.DataclassSerializer.serialize(get(case["root"]))
         finally:
             signal.setitimer(signal.ITIMER_REAL, 0)
+        # Outside guard_F16a the implementation may RETURN garbage instead of raising: when the RecursionError is
+        # swallowed inside cattrs' dispatcher the cycle comes back unrolled a few hundred levels deep.  An object graph
+        # of n objects cannot legitimately serialise deeper than ~2n: such a value becomes the observation "Deep"
+        # (never walked recursively by this harness).
+        if nesting_depth(r, limit=4 * len(heap) + 16) is None:
+            raise _Deep()
         try:
             json.dumps(r)
             c = canon(r, {})
@@ -860,6 +888,10 @@ def run_ser(case: dict) -> dict:
             ob = ["Leak", type(e).__name__]
     except NotModelled:
         raise
+    except _Deep:
+        ob = ["Err", "Deep"]
+        fails.append("serialize returned a structure nested deeper than the object graph allows (a reference cycle unrolled "
+                     "until the recursion limit; the RecursionError was swallowed inside cattrs' dispatcher)")
     except _Timeout:
         ob = ["Err", "Timeout"]
         fails.append(f"serialize did not return within {SER_TIMEOUT}s (cattrs walks the cycle; RecursionError is swallowed "
@@ -1067,6 +1099,9 @@ def run_one(case: dict) -> dict | None:
         return r
     except NotModelled as e:
         return {"skipped": str(e), "input": case}
+    except RecursionError:
+        # an observation this harness cannot walk/print must never crash the run: it is recorded as such
+        return {"skipped": "observation too deeply nested to canonicalise / print", "input": case, "unprintable": True}
 
 
 def main(chk: Check, replay: dict | None = None) -> int:
@@ -1097,6 +1132,8 @@ def main(chk: Check, replay: dict | None = None) -> int:
         r = run_one(c)
         if "skipped" in r:
             skipped += 1
+            if r.get("unprintable"):
+                chk.say(f"[C16] note: one case skipped ({r['skipped']}): {json.dumps(r['input'])[:200]}")
             continue
         cases.append(r)
     chk.cov["evaluations"] = sum(len(c["obs"]) if c["input"]["kind"] == "conv" else 1 for c in cases)
